@@ -39,6 +39,9 @@ ASSUMPTIONS = ["a death after the sentinel may legitimately end in success when 
 
 CONFIGS_Q = [(3, 1, 2), (4, 2, 2), (5, 2, 3), (6, 3, 1), (7, 2, 4)]
 CONFIGS_T = CONFIGS_Q + [(9, 3, 3), (8, 1, 4), (2, 5, 1)]
+# (records, batch, cores, victim): the victim dies holding the queue's writer lock; full rounds, a pending
+# full batch next to a partial one, the partial batch itself, three cores
+LOCK_CFGS = [(4, 2, 2, 0), (7, 2, 2, 2), (7, 2, 2, 3), (5, 2, 3, 1), (3, 2, 2, 0)]
 KINDS = ["SIGKILL", "exit3", "exception", "SIGSEGV", "SIGTERM", "sys_exit_2"]
 
 
@@ -63,7 +66,7 @@ def _cases(tier):
     cases += [("async", i) for i in range(12 if tier == "quick" else 120)]
     cases += [("double", i) for i in range(10 if tier == "quick" else 100)]
     cases += [("in_pipe_write", i) for i in range(1 if tier == "quick" else 4)]
-    cases += [("holding_writer_lock", i) for i in range(1 if tier == "quick" else 4)]
+    cases += [("holding_writer_lock", i) for i in range(len(LOCK_CFGS) if tier == "quick" else 4 * len(LOCK_CFGS))]
     return cfgs, cases
 
 
@@ -270,7 +273,8 @@ def run_case(ctx, rng, index, casedir):
         variant = case[0]
         sit["in_delivery_executions"] += 1
         big = 300_000
-        w = RR.make_workload(rng, casedir, 4, big_tag=big)
+        ln, lb, lc, lv = LOCK_CFGS[case[1] % len(LOCK_CFGS)] if variant == "holding_writer_lock" else (4, 2, 2, 0)
+        w = RR.make_workload(rng, casedir, ln, big_tag=big)
         out = os.path.join(casedir, "out.gaf")
         state = {"killed": None}
         if variant == "in_pipe_write":
@@ -299,13 +303,14 @@ def run_case(ctx, rng, index, casedir):
             if state["killed"]:
                 run["events"].append({"ev": "fault_fire", "t": 0, "pid": 0, "role": "supervisor"})
         else:
-            planned = {"cores": 2, "timeout_scale": 0.2, "fault": {"worker": 0, "point": "holding_writer_lock", "kind": "SIGKILL"},
-                       "worker_delays": {"1:before_put_0": 0.3}}
+            planned = {"cores": lc, "timeout_scale": 0.2, "fault": {"worker": lv, "point": "holding_writer_lock", "kind": "SIGKILL"},
+                       "worker_delays": {f"{x}:before_put_0": 0.3 for x in range(-(-ln // lb)) if x != lv}}
             fault = planned["fault"]
-            run = RR.run_driver(casedir, "lock", ["realign", w.gaf, w.gfa, w.fasta, "-o", out, "-c", "2"], planned, 2, timeout=45)
+            run = RR.run_driver(casedir, "lock", ["realign", w.gaf, w.gfa, w.fasta, "-o", out, "-c", str(lc)], planned, lb, timeout=45)
+            sit[f"lock_cfg:{ln}/{lb}/{lc}/victim{lv}"] += 1
         evals = 1
         sit["executions"] += 1
-        wit = {"variant": variant, "record_bytes": big, "killed": state["killed"]}
+        wit = {"variant": variant, "record_bytes": big, "killed": state["killed"], "config": [ln, lb, lc, lv]}
         judge(run, fault, wit, "", out, viol, sit)
         sigs.append(stable_hash([variant, index]))
     return {"sigs": sigs, "evals": max(evals, 1), "situations": dict(sit), "violations": viol,
